@@ -243,12 +243,23 @@ class Goal:
         return self.target
 
 
+def _rebound_method(goal, fault):
+    # (the original method stays what it was: the fault lives in the new one only)
+    def is_satisfied(s):
+        goal.calls += 1
+        r = fault(goal.calls, s)
+        if r is not None:
+            return r()
+        return goal.space.distance(goal.target, s) <= goal.radius
+    return is_satisfied
+
+
 PLANNERS = {"RRT": G.RRT, "RRTConnect": G.RRTConnect, "RRTStar": G.RRTStar, "PRM": G.PRM}
 FROM = {"RV": "from_real_vector", "SO2": "from_so2", "SO3": "from_so3", "Compound": "from_compound",
         "SE2": "from_se2", "SE3": "from_se3"}
 
 
-def run_scenario(scn, validity=None, goal_fault=None, log=None, goal_ref=None):
+def run_scenario(scn, validity=None, goal_fault=None, log=None, goal_ref=None, rebind=None):
     """Executes the scenario's calls through oxmpl_py. Returns the list of call results in the
     same shape as oxsim's `result_json`."""
     spec = scn["space"]
@@ -268,7 +279,7 @@ def run_scenario(scn, validity=None, goal_fault=None, log=None, goal_ref=None):
         return worlds[wi]
 
     world = world_of(0)
-    goal = Goal(space, dec(spec, prob["goal"]["target"]), prob["goal"]["radius"], goal_fault)
+    goal = Goal(space, dec(spec, prob["goal"]["target"]), prob["goal"]["radius"], None if rebind else goal_fault)
     goal.cycle = [dec(spec, c) for c in prob["goal"].get("cycle", [])] if prob["goal"].get("sampler") == "Cycle" else []
     if goal_ref is not None:
         goal_ref[0] = goal
@@ -293,10 +304,24 @@ def run_scenario(scn, validity=None, goal_fault=None, log=None, goal_ref=None):
     else:
         planner = PLANNERS[kind](p["max_distance"], p["goal_bias"], pd, cfg)
 
+    # A deterministic callback that remembers its answers per state OBJECT and keeps every
+    # object it was handed alive (so no two live objects share an identity). Every call crosses
+    # the boundary with a state object of its own, so the memo never hits and the callback is
+    # the plain one — unless the glue hands the same object out twice.
+    identity_memo = bool(scn["params"].get("identity_memo"))
+    kept, memo = [], {}
+
     def default_validity(w):
         def cb(s):
             vcount[0] += 1
-            a = (vcount[0] != flip_at) and w.valid(s)
+            if identity_memo:
+                if id(s) in memo:
+                    a = memo[id(s)]
+                else:
+                    kept.append(s)
+                    a = memo[id(s)] = (vcount[0] != flip_at) and w.valid(s)
+            else:
+                a = (vcount[0] != flip_at) and w.valid(s)
             if log is not None:
                 log.append((enc(s), a))
             return a
@@ -324,7 +349,14 @@ def run_scenario(scn, validity=None, goal_fault=None, log=None, goal_ref=None):
                 planner.construct_roadmap()
                 out.append({"res": "ok"})
             elif op == "Solve":
-                path = planner.solve(scn["params"]["solve_timeout_secs"])
+                try:
+                    path = planner.solve(scn["params"]["solve_timeout_secs"])
+                finally:
+                    if rebind and goal_fault is not None and not getattr(goal, "_rebound", False):
+                        # the user replaces the goal's method on the live object after the first
+                        # query: from now on the installed method is the (mis)behaving one
+                        goal._rebound = True
+                        goal.is_satisfied = _rebound_method(goal, goal_fault)
                 out.append({"res": "path", "path": [enc(s) for s in path.states]})
             else:
                 out.append({"res": "ok"})
@@ -623,9 +655,22 @@ def c20_twins(scn):
             return None
         return gf
 
-    a, _, _, _ = run_scenario(scn, validity=make_validity(True), goal_fault=make_goal_fault(True), goal_ref=goal_ref)
-    b, space, world, goal = run_scenario(scn, validity=make_validity(False), goal_fault=make_goal_fault(False), goal_ref=goal_ref)
-    return a, b, fired[0], failed_states
+    rebind = bool(scn["params"].get("goal_rebind")) and target == 2
+    a, _, _, _ = run_scenario(scn, validity=make_validity(True), goal_fault=make_goal_fault(True), goal_ref=goal_ref, rebind=rebind)
+    b, space, world, goal = run_scenario(scn, validity=make_validity(False), goal_fault=make_goal_fault(False), goal_ref=goal_ref, rebind=rebind)
+    # region faults of the goal predicate: where does a returned path end? (for `goal_rebind`
+    # only the queries after the first one run with the failing method installed)
+    ends_in_fault_region = None
+    if target == 2 and kth == 0:
+        for ci, c in enumerate(a):
+            if c["res"] == "path" and c["path"]:
+                if rebind and ci <= [i for i, x in enumerate(scn["calls"]) if x["op"] == "Solve"][0]:
+                    continue
+                last = dec(spec, c["path"][-1])
+                d = goal.space.distance(goal.target, last)
+                if d <= goal.radius and d > 0.5 * goal.radius:
+                    ends_in_fault_region = c["path"][-1]
+    return a, b, fired[0], failed_states, ends_in_fault_region
 
 
 # ---------------------------------------------------------------------------------------------
@@ -692,9 +737,11 @@ def eval_c19(doc):
 
 def eval_c20(doc):
     scn = doc["scenario"]
-    a, b, fired, failed = c20_twins(scn)
+    a, b, fired, failed, ends_bad = c20_twins(scn)
     kind = scn["planner"]["kind"]
     nontrivial = fired > 0
+    if ends_bad is not None:
+        return (f"C20/path_ends_where_goal_raises/{kind}", f"a returned path ends in {ends_bad}, a state on which the installed is_satisfied raises"), nontrivial, fired
     ok, why = results_equal(a, b)
     if not ok:
         tgt = "goal" if int(scn["params"]["fault_target"]) == 2 else "validity"
